@@ -426,6 +426,7 @@ func (fc *FnCtx) resolveVar(name string, at *ssa.BasicBlock, idx int, h *HeapSta
 		idx  int
 		v    ssa.Value
 		addr bool
+		obj  types.Object
 	}
 	var best *cand
 	consider := func(c cand) {
@@ -449,7 +450,7 @@ func (fc *FnCtx) resolveVar(name string, at *ssa.BasicBlock, idx int, h *HeapSta
 		}
 	}
 	for _, r := range fc.varRefs[name] {
-		consider(cand{r.block, r.idx, r.v, r.addr})
+		consider(cand{r.block, r.idx, r.v, r.addr, r.obj})
 	}
 	for _, b := range fc.fn.Blocks {
 		for i, in := range b.Instrs {
@@ -458,13 +459,29 @@ func (fc *FnCtx) resolveVar(name string, at *ssa.BasicBlock, idx int, h *HeapSta
 				break
 			}
 			if phi.Comment == name {
-				consider(cand{b, i - len(b.Instrs) - 1, phi, false}) // phis come before everything else in the block
+				consider(cand{b, i - len(b.Instrs) - 1, phi, false, nil}) // phis come before everything else in the block
+			}
+		}
+	}
+	if best != nil && !best.addr && best.obj != nil {
+		// a variable that lives in memory (its address is taken somewhere) is read from memory: the value a
+		// debug reference recorded at an assignment may be stale after a loop head or a store through a pointer
+		for _, r := range fc.varRefs[name] {
+			if r.addr && r.obj == best.obj && (r.block == at || r.block.Dominates(at)) {
+				if _, done := fc.vals[r.v]; done {
+					best = &cand{r.block, r.idx, r.v, true, r.obj}
+					break
+				}
 			}
 		}
 	}
 	if best != nil {
 		if best.addr {
-			return fc.loadLoc(h, fc.locOf(best.v)), true
+			lv := fc.loadLoc(h, fc.locOf(best.v))
+			if ti := fc.typeInv(lv); ti != "" && ti != "true" {
+				fc.assumeHere(ti)
+			}
+			return lv, true
 		}
 		return fc.val(best.v), true
 	}
